@@ -30,7 +30,8 @@ def random_weight(rnd, cls):
                            "0.000000000000000000000000000015", "0.00001", "0.000099"])
     if cls == "huge":
         return rnd.choice(["1000000000", "999999999.999999999", "123456789", "500000000.5", "150000000000000000000.0", "12300000000000000.0",
-                           "10000000000000000.0", "2500000000000000000000000000000.0"])
+                           "10000000000000000.0", "2500000000000000000000000000000.0", "1" + "0" * 300, "25" + "0" * 299 + ".0",
+                           "1" + "0" * 150])
     if cls == "tenths":
         return rnd.choice(["0.1", "0.2", "0.3", "0.7", "0.6", "0.5", "1.1", "3.4", "33.3", "0.25", "2.5"])
     raise ValueError(cls)
